@@ -4,6 +4,7 @@ import Driver.Util
 import Driver.C15
 import Driver.Codec
 import Driver.Engine
+import Driver.DataCore
 import Driver.Place
 import Driver.Coord
 import Driver.Ckpt
@@ -34,5 +35,6 @@ def main (args : List String) : IO UInt32 := do
   | ["ckpt"] => loop Drv.Ckpt.step hin hout (); hout.flush; return 0
   | ["place"] => loop Drv.Place.step hin hout (); hout.flush; return 0
   | ["coord"] => loop Drv.Coord.step hin hout none; hout.flush; return 0
+  | ["datacore"] => loop Drv.DataCore.step hin hout {}; hout.flush; return 0
   | ["codec"] => loop Drv.Codec.step hin hout (); hout.flush; return 0
   | _ => IO.eprintln "usage: zvdriver <proto>"; return 2
